@@ -192,6 +192,11 @@ func Check(c Case) error {
 	if res.Unspecified != "" {
 		return nil
 	}
+	// a render that never returns fails this case instead of wedging the shard
+	return Bounded(func() error { return checkRendered(c, res) })
+}
+
+func checkRendered(c Case, res Result) error {
 	outs, errs := render(c)
 	for _, entry := range []string{"Load.Fill.Render", "RenderFragment"} {
 		if err := errs[entry]; err != nil {
